@@ -24,6 +24,8 @@ pub struct C09 {
     rng: StdRng,
     pub probe_every: usize,
     probe_n: u32,
+    /// the last judged penalty could only be recovered up to its parity (see `judge`)
+    parity_unknown: std::cell::Cell<bool>,
 }
 
 impl C09 {
@@ -32,6 +34,7 @@ impl C09 {
             rng: StdRng::seed_from_u64(seed ^ 0xC09),
             probe_every: 20,
             probe_n: 0,
+            parity_unknown: std::cell::Cell::new(false),
         }
     }
 }
@@ -98,6 +101,7 @@ impl C09 {
         // collector's part (ceil(P/2) when shares are paid, P when they round to zero) and must
         // reproduce the owner's total
         let mut owner_inconsistent = false;
+        self.parity_unknown.set(false);
         if active.contains(pos.receiver.as_str()) && pos.receiver.as_str() != w.fc.as_str() {
             let n = active.len() as u128;
             let total_to_owner = p.owner;
@@ -125,6 +129,10 @@ impl C09 {
             }
             match found {
                 Some((pen, share)) => {
+                    // as the only active farm owner the position's owner gets back exactly what
+                    // an odd penalty charges more than the even one below it: balances cannot
+                    // tell P = 2fc - 1 from P = 2fc
+                    self.parity_unknown.set(n == 1 && pen > 0);
                     p.owner = amount - pen;
                     if share > 0 {
                         p.others.insert(pos.receiver.to_string(), share);
@@ -233,6 +241,7 @@ impl C09 {
         times.sort();
         times.dedup();
         let mut last: Option<(u64, u128)> = None;
+        let mut last_parity_unknown = false;
         for t in times {
             w.restore(&snap);
             if t > now {
@@ -251,8 +260,10 @@ impl C09 {
             }
             if let Some(pen) = self.judge(w, &f, &pos, t, &out, "forked exit at a chosen time", rep) {
                 // never increases as time passes after closing (same position, same state)
+                let slack = if self.parity_unknown.get() || last_parity_unknown { 1 } else { 0 };
+                last_parity_unknown = self.parity_unknown.get();
                 if let (Some((t0, p0)), false) = (last, pos.open) {
-                    if pen > p0 {
+                    if pen > p0 + slack {
                         rep.failed("decays", None, format!("penalty grew from {p0} at t={t0} to {pen} at t={t}"), witness(json!({"position": format!("{pos}")})));
                     } else {
                         rep.held("decays", hash_of(&(p0 == pen, pen == 0)), || json!({"t0": t0, "penalty0": p0.to_string(), "t1": t, "penalty1": pen.to_string()}));
